@@ -48,6 +48,7 @@ def dot(row, x):
 
 
 class _Arr(Harness):
+    xcheck = 2
     module = "puan.ndarray"
     numpy_mode = "sym"
 
@@ -98,8 +99,23 @@ class _Arr(Harness):
         return {"violated": [], "detail": {"tried": tried}}
 
 
-def _box(w):
-    return itertools.product(*[range(l, h + 1) for l, h in zip(w["lo"], w["hi"])])
+def _box(w, limit=20000):
+    """all integer points of the box when it is small; otherwise its corners, near-corner points and a random sample"""
+    import random
+    rngs = [range(l, h + 1) for l, h in zip(w["lo"], w["hi"])]
+    size = 1
+    for r_ in rngs:
+        size *= len(r_)
+    if size <= limit:
+        return itertools.product(*rngs)
+    rnd = random.Random(1)
+    ends = [sorted({l, min(l + 1, h), max(h - 1, l), h, min(max(0, l), h)}) for l, h in zip(w["lo"], w["hi"])]
+    pts = set(itertools.product(*ends))
+    if "x" in w:
+        pts.add(tuple(w["x"]))
+    for _ in range(2000):
+        pts.add(tuple(rnd.randint(l, h) for l, h in zip(w["lo"], w["hi"])))
+    return sorted(pts)
 
 
 class RowBoundsH(_Arr):
@@ -147,10 +163,7 @@ def _tighten_native(p, w):
     A, b = np.asarray(p.A), np.asarray(p.b)
     lb, ub = [list(map(float, r)) for r in np.asarray(p.tighten_column_bounds(), dtype=float)]
     bad = set()
-    size = 1
-    for l, h in zip(w["lo"], w["hi"]):
-        size *= (h - l + 1)
-    pts = _box(w) if size <= 50000 else [tuple(w["x"])] if "x" in w else []
+    pts = _box(w)
     for j in range(len(w["lo"])):
         if lb[j] < w["lo"][j] or ub[j] > w["hi"][j]:
             bad.add(f"tighten.no-widen[{j}]")
